@@ -309,7 +309,8 @@ def _decl_list_nf(content, mask=None, selector=None):
     for d in tinycss2.parse_declaration_list(content, skip_whitespace=True, skip_comments=False):
         if isinstance(d, A.Declaration):
             if (mask_color and d.lower_name == "color") or d.name in mask_props:
-                out.append(("decl", d.name, MASKED, bool(d.important)))
+                # the VALUE may change; comments written inside it must still be carried through
+                out.append(("decl", d.name, MASKED + tuple(("comment", t.value) for t in d.value if t.type == "comment"), bool(d.important)))
             else:
                 out.append(("decl", d.name, tuple(_tok_nf(d.value)), bool(d.important)))
         elif isinstance(d, A.Comment):
